@@ -20,7 +20,8 @@ META = {
         "0.01-0.3 s, and an ending in {shutdown from an outside thread, from a thread payload, two or three "
         "concurrent shutdowns, SIGINT to the main thread, KeyboardInterrupt raised in an asyncio / thread / "
         "trio payload, Exception failure, orphaned return, BaseException failure, shutdown racing a failing "
-        "payload by -30..+30 ms}; line-level delay injection. Non-trivial = history of >= 2 generations that "
+        "payload by -30..+30 ms}; line-level delay injection (with longer delays inside stop / shutdown); kind=polling: the accept loop alone under a "
+        "virtual clock, uptimes from 0 to 20000 polling cycles: a shutdown request is noticed within one accept_delay. Non-trivial = history of >= 2 generations that "
         "all reached `running`; distinct by history shape."
     ),
     "assumptions": [
@@ -35,8 +36,8 @@ ENDINGS = ["shutdown_outside", "shutdown_thread", "shutdown_double", "sigint", "
 
 def plan(tier, seed):
     if tier == "thorough":
-        return [dict(seed=seed, shard=i, n=60) for i in range(16)]
-    return [dict(seed=seed, shard=i, n=5) for i in range(16)]
+        return [dict(seed=seed, shard=i, n=60) for i in range(16)] + [dict(seed=seed, shard="polling", kind="polling", n=400)]
+    return [dict(seed=seed, shard=i, n=5) for i in range(16)] + [dict(seed=seed, shard="polling", kind="polling", n=60)]
 
 
 def gen_generation(rnd, index, ending):
@@ -131,6 +132,56 @@ def gen_case(rnd, spec):
             "meta": {"endings": [g["meta"]["ending"] for g in gens]}}
 
 
+def run_polling_shard(spec, result):
+    """The accept loop's polling under a virtual clock: however long the runner has been up, a shutdown request is
+    noticed within one accept_delay, and the loop sweeps the services at least that often."""
+    import trio
+    import trio.testing
+    from cobald.daemon.runners.service import ServiceRunner
+
+    only = spec.get("only_case")
+    for i in range(spec["n"]):
+        if only is not None and i != only:
+            continue
+        rnd = core.rng(PID, spec["seed"], "polling", i)
+        delay = rnd.choice([0.01, 0.05, 0.1, 0.3, 1, 1, 5])
+        uptime = rnd.choice([0, delay / 3, delay * 2.5, delay * 17.3, delay * 250.7, delay * 3000.3, delay * 20000.7])  # up to 20000 sweeps
+        case = {"kind": "polling", "accept_delay": delay, "uptime": uptime}
+        runner = ServiceRunner(accept_delay=delay)
+        if not hasattr(runner, "_accept_services") or not hasattr(runner, "_adopt_services") or not hasattr(runner, "_must_shutdown"):
+            result.inconc("ServiceRunner no longer has the anchored polling loop (_accept_services / _adopt_services / _must_shutdown)")
+            return
+        sweeps = []
+        runner._adopt_services = lambda: sweeps.append(trio.current_time())
+        times = {}
+
+        async def loop():
+            await runner._accept_services()
+            times["ended"] = trio.current_time()
+
+        async def main():
+            async with trio.open_nursery() as nursery:
+                nursery.start_soon(loop)
+                await trio.sleep(uptime)
+                runner._must_shutdown = True
+                times["requested"] = trio.current_time()
+
+        trio.run(main, clock=trio.testing.MockClock(autojump_threshold=0))
+        result.case(case, key=("polling", delay, uptime))
+        result.count("polling_loops_checked")
+        result.count("polling_sweeps_observed", len(sweeps))
+        latency = times["ended"] - times["requested"]
+        gaps = [b - a for a, b in zip(sweeps, sweeps[1:])]
+        what = None
+        if latency > delay * (1 + 1e-9):
+            what = "after %.2f s of uptime a shutdown request was only noticed after %.3f s (accept_delay %.3f)" % (uptime, latency, delay)
+        elif gaps and max(gaps) > delay * (1 + 1e-9):
+            what = "services are only looked for every %.3f s although accept_delay is %.3f" % (max(gaps), delay)
+        if what:
+            clean = {k: v for k, v in spec.items() if k != "only_case"}
+            result.violation(what, case, None, spec=clean, case_id=i)
+
+
 def judge(case, run, result):
     trouble = common.harness_trouble(run)
     if trouble:
@@ -218,6 +269,9 @@ def execute(case, result):
 
 def run_shard(spec):
     result = core.Result()
+    if spec.get("kind") == "polling":
+        run_polling_shard(spec, result)
+        return result
     only = spec.get("only_case")
     for i in range(spec["n"]):
         if only is not None and i != only:
@@ -234,7 +288,7 @@ def run_shard(spec):
 
 
 def finish(total, tier):
-    need = ["histories_completed", "restarts_of_the_same_runner_instance", "concurrent_accepts_rejected", "shutdown_calls_returned", "race_outcome_returned"]
+    need = ["histories_completed", "polling_loops_checked", "restarts_of_the_same_runner_instance", "concurrent_accepts_rejected", "shutdown_calls_returned", "race_outcome_returned"]
     need += ["ending_" + e for e in ENDINGS] + ["restarts_after_" + e for e in ENDINGS]
     for name in need:
         if not total.counters.get(name) and not total.violations:
